@@ -35,16 +35,31 @@ static const Var VARS[11] = {{0,16,16,0,0},{1,16,32,0,0},{2,16,48,0,0},{3,16,16,
 static Skinny128_128 a0; static Skinny128_256 a1; static Skinny128_384 a2; static Skinny128_256_Tweaked a3; static Skinny128_384_Tweaked a4;
 static Skinny64_64 a5; static Skinny64_128 a6; static Skinny64_192 a7; static Skinny64_128_Tweaked a8; static Skinny64_192_Tweaked a9; static Mantis8 a10;
 
-static BlockCipher *obj_of(int id)
+/* a fresh object per case / per history, so that cases are independent of each other and a
+ * violation replays stand-alone */
+static BlockCipher *fresh_of(int id)
+{
+    switch (id) { case 0: return new Skinny128_128; case 1: return new Skinny128_256; case 2: return new Skinny128_384; case 3: return new Skinny128_256_Tweaked;
+                  case 4: return new Skinny128_384_Tweaked; case 5: return new Skinny64_64; case 6: return new Skinny64_128; case 7: return new Skinny64_192;
+                  case 8: return new Skinny64_128_Tweaked; case 9: return new Skinny64_192_Tweaked; default: return new Mantis8; }
+}
+static BlockCipher *cur_obj[11];
+
+static BlockCipher *obj_of_static(int id)
 {
     switch (id) { case 0: return &a0; case 1: return &a1; case 2: return &a2; case 3: return &a3; case 4: return &a4; case 5: return &a5;
                   case 6: return &a6; case 7: return &a7; case 8: return &a8; case 9: return &a9; default: return &a10; }
 }
 
+static BlockCipher *obj_of(int id) { return cur_obj[id] ? cur_obj[id] : obj_of_static(id); }
+static void renew(int id) { delete cur_obj[id]; cur_obj[id] = fresh_of(id); }
+
 static bool ard_set_tweak(int id, const uint8_t *t, size_t len)
 {
-    switch (id) { case 3: return a3.setTweak(t, len); case 4: return a4.setTweak(t, len); case 8: return a8.setTweak(t, len);
-                  case 9: return a9.setTweak(t, len); default: return a10.setTweak(t, len); }
+    BlockCipher *o = obj_of(id);
+    switch (id) { case 3: return ((Skinny128_256_Tweaked *)o)->setTweak(t, len); case 4: return ((Skinny128_384_Tweaked *)o)->setTweak(t, len);
+                  case 8: return ((Skinny64_128_Tweaked *)o)->setTweak(t, len); case 9: return ((Skinny64_192_Tweaked *)o)->setTweak(t, len);
+                  default: return ((Mantis8 *)o)->setTweak(t, len); }
 }
 
 /* C library result for (variant, key, tweak, mode, dir) */
@@ -68,7 +83,9 @@ static void fam_case(const uint8_t *buf, size_t m, void *arg)
     const Var *v = (const Var *)arg;
     const uint8_t *tweak = buf, *key = buf + (v->tweaked ? v->bs : 0), *blk = key + v->klen;
     uint8_t real[16], want[16]; char sig[120], cd[300];
-    BlockCipher *o = obj_of(v->id);
+    BlockCipher *o;
+    renew(v->id);
+    o = obj_of(v->id);
     ++g_cnt.evaluations;
     if (!o->setKey(key, (size_t)v->klen)) { violation("C19/setKey-rejected", "", "%s.setKey returned false for its own key size", VNAME[v->id]); return; }
     if (v->tweaked && !ard_set_tweak(v->id, tweak, (size_t)v->bs)) { violation("C19/setTweak-rejected", "", "%s.setTweak returned false", VNAME[v->id]); return; }
@@ -126,9 +143,10 @@ static void hist_check(const Var *v, const int *h, int n, int ki, const uint8_t 
 /* replays h[0..n) on the object, returns model state; ok=false when a return value is wrong */
 static bool hist_replay(const Var *v, const int *h, int n, int *ki, uint8_t *tweak, int *mode, char *why)
 {
-    BlockCipher *ob = obj_of(v->id); int i; bool r;
+    BlockCipher *ob; int i; bool r;
     *ki = 0; memset(tweak, 0, 16); *mode = 0;
-    ob->clear();
+    renew(v->id);
+    ob = obj_of(v->id);
     for (i = 0; i < n; ++i) {
         switch (h[i]) {
         case H_KEY0: case H_KEY1: r = ob->setKey(KEYS[h[i] - H_KEY0], (size_t)v->klen); *ki = h[i] - H_KEY0; memset(tweak, 0, 16); *mode = 0; if (!r) { sprintf(why, "%s returned false", HNAME[h[i]]); return false; } break;
@@ -137,7 +155,7 @@ static bool hist_replay(const Var *v, const int *h, int n, int *ki, uint8_t *twe
         case H_TWNULL: r = ard_set_tweak(v->id, NULL, (size_t)v->bs); memset(tweak, 0, 16); if (!r) { sprintf(why, "setTweak(NULL) returned false"); return false; } break;
         case H_TWBAD: r = ard_set_tweak(v->id, HTW[2], (size_t)v->bs - 1); if (r) { sprintf(why, "setTweak accepted a wrong length"); return false; } break;
         case H_CLEARKEY: ob->clear(); r = ob->setKey(KEYS[0], (size_t)v->klen); *ki = 0; memset(tweak, 0, 16); *mode = 0; if (!r) { sprintf(why, "setKey after clear returned false"); return false; } break;
-        default: a10.swapModes(); *mode = !*mode; break;
+        default: ((Mantis8 *)ob)->swapModes(); *mode = !*mode; break;
         }
     }
     return true;
